@@ -231,7 +231,7 @@ func exprStr(e ast.Expr) string {
 }
 
 func c20Daily(p *Prog, r *Report) {
-	r.Rule("C20.R4", "daily update: on every day of a time-series run the level is looked up for that day's number and assigned to the groundwater level; a lookup error ends the run", 1)
+	r.Rule("C20.R4", "daily update: on every day of a time-series run the level is looked up for that day's number and assigned to the groundwater level; a lookup error ends the run; nothing else in the day loop stores the level", 2)
 	x := walked(p, "hermes.HermesSession.Run")
 	if x == nil {
 		return
@@ -268,6 +268,29 @@ func c20Daily(p *Prog, r *Report) {
 	}
 	if n == 0 {
 		r.Ob("daily-lookup", "-", false, "no daily lookup of the groundwater series in the day loop")
+	}
+	// the level of the day is what its source gave: inside the day loop the level is stored by the series arm and by
+	// the sinusoid arm and by nothing else (a later correction — a clamp at the drain depth, a smoothing — makes the
+	// level differ from the supplied series)
+	if day := dayLoop(x); day != nil {
+		other := ""
+		nSt := 0
+		for _, e := range x.Events {
+			if e.Kind != "assign" || e.Root != "GlobalVarsMain.GRW" || !e.InLoop(day) {
+				continue
+			}
+			nSt++
+			src := e.HasGuard(func(c *Cond) bool {
+				return c.Kind == "cmp" && c.P.MentionsRoot("GlobalVarsMain.GROUNDWATERFROM")
+			})
+			v := stripVersions(e.Val)
+			isLookup := strings.Contains(v.String(), "hermes.GetGroundWaterLevel")
+			isSinus := v.MentionsRoot("GlobalVarsMain.AMPL") && v.MentionsRoot("GlobalVarsMain.GW")
+			if !src || !(isLookup || isSinus) {
+				other += fmt.Sprintf("GRW = %s at %s; ", clip(v.String(), 60), p.Pos(e.Pos))
+			}
+		}
+		r.Ob("daily-level:no-other-store", "-", other == "" && nSt >= 2, fmt.Sprintf("%d stores of the level in the day loop; besides the series lookup and the sinusoid (each under its source switch): %s", nSt, orStr(other, "none")))
 	}
 }
 
